@@ -248,9 +248,17 @@ class Program:
         other.root = self.root
         other.modules = dict(self.modules)
         other.by_relpath = dict(self.by_relpath)
-        old = self.by_relpath[relpath]
-        m = Module(old.name, old.path, relpath, src, old.is_pkg)
-        other.modules[old.name] = m
+        old = self.by_relpath.get(relpath)
+        if old is None:
+            # a module added by the variant
+            name = relpath[:-3].replace("/", ".")
+            is_pkg = name.endswith(".__init__")
+            if is_pkg:
+                name = name[:-9]
+            m = Module(name, os.path.join(self.repo, relpath), relpath, src, is_pkg)
+        else:
+            m = Module(old.name, old.path, relpath, src, old.is_pkg)
+        other.modules[m.name] = m
         other.by_relpath[relpath] = m
         return other
 
